@@ -101,7 +101,7 @@ fn ostats_map(o: &OStats) -> BTreeMap<String, u64> {
         ingest_filtered_own, ingest_filtered_foreign, known_exact, known_exact_nonempty, known_safety_only,
         known_with_expired_entries, discovered_judged, discovered_skipped, dumps_judged, dump_entries,
         dumps_with_expired, c16_instances, c16_dump_checks, probes_sent, probes_answered, probes_excluded,
-        api_probes, resolver_probes, panics_seen, refresh_queries, truncated_accepted, announcements_judged);
+        api_probes, resolver_probes, panics_seen, refresh_queries, truncated_accepted, announcements_judged, tokio_windows, tokio_replies_judged, tokio_known_exact, tokio_ingests);
     m
 }
 
@@ -120,9 +120,9 @@ fn scenario_summary(sc: &Scenario) -> serde_json::Value {
         .nodes
         .iter()
         .map(|n| match &n.kind {
-            NodeKind::Discovery { service, instance, ttl, channel } => format!("discovery({} @ {}, ttl {}, {} ips, {} ports, {} attrs, channel {}) ops {}", instance.name, service, ttl, instance.ips.len(), instance.ports.len(), instance.attrs.len(), channel, n.script.len()),
-            NodeKind::Responder { ttl } => format!("responder(ttl {}) ops {}", ttl, n.script.len()),
-            NodeKind::Resolver => format!("one-shot resolver ops {}", n.script.len()),
+            NodeKind::Discovery { service, instance, ttl, channel, asyncv } => format!("{} discovery({} @ {}, ttl {}, {} ips, {} ports, {} attrs, channel {}) ops {}", if *asyncv { "tokio" } else { "sync" }, instance.name, service, ttl, instance.ips.len(), instance.ports.len(), instance.attrs.len(), channel, n.script.len()),
+            NodeKind::Responder { ttl, asyncv } => format!("{} responder(ttl {}) ops {}", if *asyncv { "tokio" } else { "sync" }, ttl, n.script.len()),
+            NodeKind::Resolver { asyncv } => format!("{} one-shot resolver ops {}", if *asyncv { "tokio" } else { "sync" }, n.script.len()),
             NodeKind::RawPeer { port, joined } => format!("raw peer(port {:?}, joined {}) datagrams {}", port, joined, n.script.len()),
         })
         .collect();
@@ -205,6 +205,7 @@ fn worker(prop: &str, verif_seed: u64, first: u64, count: u64, stride: u64, stor
         let sc = generate(seed, prop, profile_for(prop, i));
         match one_run(prop, &sc, &mut tally) {
             Ok(fds) => {
+                let spun = fds.iter().any(|f| f.sig.starts_with("spin:"));
                 for f in fds {
                     if f.prop != prop {
                         continue;
@@ -214,6 +215,17 @@ fn worker(prop: &str, verif_seed: u64, first: u64, count: u64, stride: u64, stor
                         writeln!(stdout.lock(), "{}", serde_json::to_string(&m).unwrap()).unwrap();
                     }
                 }
+                if spun {
+                    // a thread of the code under test is still spinning in this process: report
+                    // what we have and leave (the remaining runs of this worker are not executed)
+                    if prop != "C14" {
+                        let m = WorkerMsg::Error(format!("run {} (seed {}): a thread of the code under test spins without terminating (a C14 violation: run ./check C14); this batch cannot continue", i, seed));
+                        writeln!(stdout.lock(), "{}", serde_json::to_string(&m).unwrap()).unwrap();
+                    }
+                    compact(&mut tally);
+                    writeln!(stdout.lock(), "{}", serde_json::to_string(&WorkerMsg::Tally(tally)).unwrap()).unwrap();
+                    std::process::exit(0);
+                }
             }
             Err(e) => {
                 let m = WorkerMsg::Error(format!("run {} (seed {}): {}", i, seed, e));
@@ -222,6 +234,9 @@ fn worker(prop: &str, verif_seed: u64, first: u64, count: u64, stride: u64, stor
         }
         i += stride;
         done += 1;
+        if done % 20_000 == 0 {
+            compact(&mut tally);
+        }
     }
     // store-level histories (C20 layer A, C13 core) share the worker
     if store_runs > 0 {
@@ -256,9 +271,22 @@ fn worker(prop: &str, verif_seed: u64, first: u64, count: u64, stride: u64, stor
             }
             j += stride;
             d += 1;
+            if d % 200_000 == 0 {
+                compact(&mut tally);
+            }
         }
     }
+    compact(&mut tally);
     writeln!(stdout.lock(), "{}", serde_json::to_string(&WorkerMsg::Tally(tally)).unwrap()).unwrap();
+}
+
+/// de-duplicate (and bound) the fingerprint lists before they cross the pipe
+fn compact(t: &mut Tally) {
+    for v in [&mut t.nontrivial_fps, &mut t.model_states, &mut t.store_distinct] {
+        v.sort_unstable();
+        v.dedup();
+        v.truncate(1_500_000);
+    }
 }
 
 fn reproduces(rp: &Replay) -> Result<Option<String>, String> {
@@ -551,7 +579,8 @@ fn check(prop: &str, tier: &str, verif_seed: u64, runs_override: Option<u64>, jo
     let mut known_hits = 0;
     let mut lines = Vec::new();
     for (sig, rp) in &found {
-        let min = minimise(rp);
+        // a spinning scenario cannot be re-run in this process (its thread never ends)
+        let min = if sig.starts_with("spin:") { rp.clone() } else { minimise(rp) };
         let path = dir.join(format!("{}.json", sanitize(sig)));
         std::fs::write(&path, serde_json::to_string_pretty(&min).unwrap()).expect("write replay");
         // fresh-process replay must reproduce before anything is reported
@@ -624,14 +653,14 @@ fn check(prop: &str, tier: &str, verif_seed: u64, runs_override: Option<u64>, jo
                 "real": ["simple_mdns::sync_discovery::{ServiceDiscovery, SimpleMdnsResponder, OneShotMdnsResolver} (real loops, locks, sleeps)", "ResourceRecordManager", "build_reply", "InstanceInformation", "simple_dns codec", "radix_trie", "std::sync::mpsc", "std RwLock poisoning"],
                 "simulated": ["thread scheduling (baton passing, seeded)", "RwLock admission", "thread::sleep / Instant::now (virtual clock, per-node offsets)", "UDP multicast + unicast sockets with fault injection", "hash seeds (getrandom interposition)", "node crash/restart, stalls, clock jumps"],
                 "stubs": ["socket_helper (simulated sockets with the same bind/join/time-out semantics)"],
-                "not_run": ["async_discovery (tokio variants)"],
+                "tokio_variants": "simple_mdns::async_discovery::{ServiceDiscovery, SimpleMdnsResponder, OneShotMdnsResolver} run on about a third of the service nodes: real async bodies, every task a simulated thread driven by a minimal executor; tokio::sync::mpsc and tokio::select! are the real ones; net/time/RwLock/spawn are simulated (see oracle_probes.tokio_*)",
             },
         },
         "assumptions": [
             "code between two scheduling points runs atomically (all cross-thread state of simple-mdns is behind the RwLock, the sockets and an mpsc sender)",
             "reference model and refdns reader are trusted; exact comparisons only for intact datagrams from well-formed senders, deliberately relaxed (optional entries) for corrupted or hostile ones",
             "at the single instant now == expiry either answer is accepted",
-            "sync implementations only; the tokio variants are not simulated",
+            "the tokio variants run under a minimal simulated executor (tasks are simulated threads that yield only at awaits on sockets, timers, locks, channels), not under the tokio runtime",
         ],
     });
     let _ = std::fs::create_dir_all(format!("{}/evidence", verif_root()));
